@@ -30,6 +30,7 @@ type Env struct {
 	lookup func(name string) (SV, bool) // fallback resolver (locals)
 	fr     *Frame
 	pkg    *types.Package
+	recSym map[string]string // recursive spec functions being defined -> their UF symbol
 }
 
 type evalErr struct{ msg string }
@@ -614,13 +615,18 @@ func (e *Env) call(n *SNode) SV {
 	return SV{}
 }
 
-func isGoSort(s string) bool { return strings.ContainsAny(s, "*.[") }
+func isGoSort(s string) bool {
+	return strings.ContainsAny(s, "*.[") || s == "error" || s == "any"
+}
 
 func (e *Env) callSpec(sf *SpecFunc, args []SV) SV {
 	x := e.x
 	B := x.B
 	if len(args) != len(sf.Params) {
 		e.fail("spec function %s expects %d arguments", sf.Name, len(sf.Params))
+	}
+	if sf.Body != nil && sf.Rec {
+		return e.callRec(sf, args)
 	}
 	if sf.Body != nil && !sf.Rec {
 		// macro expansion; Go-typed parameters are passed as they are
@@ -763,4 +769,48 @@ func (e *Env) bindResults(names []string, vals []Value) {
 			e.vars[fmt.Sprintf("result%d", i)] = svValue(vals[i])
 		}
 	}
+}
+
+// callRec: a recursive spec function f(fixed..., i). It becomes an
+// uninterpreted function of i (specific to the fixed arguments and to the
+// heap state its body reads) together with its definitional axiom
+//   forall i :: f(i) == body(fixed..., i)
+// which the solver unfolds by E-matching where f(...) terms occur.
+func (e *Env) callRec(sf *SpecFunc, args []SV) SV {
+	x := e.x
+	B := x.B
+	n := len(sf.Params)
+	if n == 0 || isGoSort(sf.PSorts[n-1]) || e.sortByName(sf.PSorts[n-1]) != IntSort {
+		e.fail("recursive spec function %s: last parameter must be an int", sf.Name)
+	}
+	last := e.term(args[n-1])
+	if sym, ok := e.recSym[sf.Name]; ok {
+		// recursive occurrence inside the body
+		return svTerm(B.App(B.funcs[sym], last))
+	}
+	ret := e.sortByName(sf.Ret)
+	evalBody := func(sym string) *Term {
+		d := B.DeclFunc(sym, []*Sort{IntSort}, ret)
+		ne := &Env{x: x, st: e.st, old: e.old, vars: map[string]SV{}, pkg: e.pkg, recSym: map[string]string{}}
+		for k, v := range e.recSym {
+			ne.recSym[k] = v
+		}
+		ne.recSym[sf.Name] = d.Name
+		for i, p := range sf.Params[:n-1] {
+			ne.vars[p] = args[i]
+		}
+		bv := B.BoundVar("rec$i", IntSort)
+		ne.vars[sf.Params[n-1]] = svTerm(bv)
+		return ne.term(ne.eval(sf.Body))
+	}
+	key := evalBody("rec$" + sf.Name + "$PLACEHOLDER")
+	sym := fmt.Sprintf("rec$%s$%d", sf.Name, key.id)
+	d := B.DeclFunc(sym, []*Sort{IntSort}, ret)
+	if !x.typed[-13*key.id-7] {
+		x.typed[-13*key.id-7] = true
+		body := evalBody(sym)
+		bv := B.BoundVar("rec$i", IntSort)
+		x.assumeGlobal(B.Forall([]*Term{bv}, B.Eq(B.App(d, bv), body)), "definition of "+sf.Name)
+	}
+	return svTerm(B.App(d, last))
 }
